@@ -198,8 +198,9 @@ def worldLine (st : WState) (line : String) : WState × List String :=
       | "in" :: t :: rest => (t.toNat?, rest)
       | _ => (none, lt)
     -- `gget` / `ggetmut` / `gins` / `grem`: the same operations through the generic storage traits — same model ops
+    -- (`uins`: the insertion executed from a scope guard while a destructor panic unwinds — an insertion all the same)
     let lt := match lt with
-      | h :: rest => if ["gget", "ggetmut", "gins", "grem", "lget", "lgetmut", "pejoin"].contains h then (h.drop 1).toString :: rest
+      | h :: rest => if ["gget", "ggetmut", "gins", "grem", "lget", "lgetmut", "pejoin", "uins"].contains h then (h.drop 1).toString :: rest
                    else if h == "lazy_create_nobuild" then "lazy_create" :: rest else lt
       | [] => lt
     -- `ldrain2 k @h`: two look-ups of the same entity through a draining lending join. The first one is the model's
